@@ -134,6 +134,12 @@ func newFlagSet(name string) *flag.FlagSet {
 }
 
 func addFlag(fs *flag.FlagSet, name string, value any, description string) error {
+	// FlagSet panics when given such a name.
+	if strings.HasPrefix(name, "-") || strings.Contains(name, "=") || fs.Lookup(name) != nil {
+		return errs.BadValue{What: "flag name",
+			Valid:  "name not starting with -, not containing = and not already used",
+			Actual: vals.ReprPlain(name)}
+	}
 	switch value := value.(type) {
 	case bool:
 		fs.Bool(name, value, description)
